@@ -363,9 +363,23 @@ func runHist(h *hist, keys []keyInfo) {
 					return false
 				}
 				for _, p := range peers {
-					_, t := p.snapshot()
-					if time.Since(t) < 130*time.Millisecond {
+					pk, t := p.snapshot()
+					// every executing stream is written an initial packet (possibly empty)
+					if len(pk) == 0 || time.Since(t) < 130*time.Millisecond {
 						return false
+					}
+				}
+				return true
+			})
+			// on a loaded machine the loop may lag: give a state that differs from
+			// "told iff locally subscribed" three more seconds before recording it
+			waitFor(3*time.Second, 10*time.Millisecond, func() bool {
+				for _, p := range peerIDs {
+					t := peers[p].told()
+					for _, ch := range h.chans {
+						if t[chName(ch)] != (liveSubs[ch] > 0) {
+							return false
+						}
 					}
 				}
 				return true
@@ -535,5 +549,21 @@ func c29(c *hx.Ctx) {
 	c.Class("release-race")
 	for _, s := range bad {
 		c.Failf("c29-handler-after-release", map[string]any{"kind": "release-race"}, "%s", s)
+	}
+	// subscribe/release hammering while new streams join: a release between the
+	// initial-set pass and the sweep of the Execute loop (oracle only)
+	gr := c.N / 50
+	if gr < 4 {
+		gr = 4
+	}
+	gap := gapRace(keys, gr, 2500*time.Millisecond)
+	for i := 0; i < gr; i++ {
+		c.Eval()
+	}
+	c.Class("gap-race")
+	for _, s := range gap {
+		c.Failf("c29-unsub-not-retracted-gap", map[string]any{"kind": "gap-race",
+			"history": "6 goroutines loop AddSubscription(fresh channel); Release() while a new peer stream is added every 35 ms; after all subscriptions are released and the loop is idle, the stream still holds Subscribe=true",
+			"model_witness": "Pubsub/Proofs29Loop.v gap_trace = [LSubscribe 7; LAddPeer 1; LInit; LRelease 7; LSweep; LWake; LInit; LSweep]"}, "%s", s)
 	}
 }
